@@ -153,6 +153,22 @@ theorem anyNegAt_relabel (π : Int → Int) (v : Variant) (scale : Option α) (c
   rw [List.any_map]
   rfl
 
+theorem finish_relabel (π : Int → Int) (hπ : Function.Injective π) (v : Variant) (scale : Option α)
+    (alts chosen : List (Alt α)) (st : BisState α) :
+    finish v scale (alts.map (relabelAlt π)) (chosen.map (relabelAlt π)) st
+      = (finish v scale alts chosen st).map (relabelFc π) := by
+  unfold finish
+  cases h2 : st.negative
+  · simp only [Bool.false_eq_true, ↓reduceIte, Except.map, relabelFc, List.map_map]
+    congr 1
+    congr 1
+    apply List.map_congr_left
+    intro a _
+    simp only [Function.comp]
+    rw [isChosenIn_relabel π hπ]
+    rfl
+  · simp only [↓reduceIte]; rfl
+
 theorem forecast_relabel (π : Int → Int) (hπ : Function.Injective π) (v : Variant) (scale : Option α)
     (budget tolD tolB : α) (alts : List (Alt α)) :
     forecast v scale budget tolD tolB (alts.map (relabelAlt π))
@@ -165,19 +181,33 @@ theorem forecast_relabel (π : Int → Int) (hπ : Function.Injective π) (v : V
   simp only [relabelIdent, hg, anyNegAt_relabel]
   cases h1 : Num.lt (identifyChosen v scale budget alts).hi (identifyChosen v scale budget alts).lo
   · simp only [Bool.false_eq_true, ↓reduceIte]
-    generalize bisLoop (totalAt v scale (identifyChosen v scale budget alts).chosen)
-        (anyNegAt v scale (identifyChosen v scale budget alts).chosen) budget tolD tolB 5000
-        ⟨(identifyChosen v scale budget alts).lo, (identifyChosen v scale budget alts).hi, true, false⟩ = st
-    cases h2 : st.negative
-    · simp only [Bool.false_eq_true, ↓reduceIte, Except.map, relabelFc, List.map_map]
-      congr 1
-      congr 1
-      apply List.map_congr_left
-      intro a _
-      simp only [Function.comp]
-      rw [isChosenIn_relabel π hπ]
-      rfl
-    · simp only [↓reduceIte]; rfl
+    exact finish_relabel π hπ v scale alts _ _
   · simp only [↓reduceIte]; rfl
+
+/-! ### shape of a successful forecast -/
+
+theorem finish_ok_shape (v : Variant) (scale : Option α) (alts chosen : List (Alt α)) (st : BisState α)
+    (f : Forecast α) (h : finish v scale alts chosen st = .ok f) :
+    f.chosen = chosen.map (·.label) ∧
+    f.x = alts.map fun a => (a.label, if isChosenIn chosen a then inv v scale a f.lam else 0) := by
+  unfold finish at h
+  split at h
+  · cases h
+  · injection h with h
+    subst h
+    exact ⟨rfl, rfl⟩
+
+/-- the goods outside the identified choice set get 0, the others the closed form at the returned
+multiplier -/
+theorem forecast_ok_shape (v : Variant) (scale : Option α) (budget tolD tolB : α)
+    (alts : List (Alt α)) (f : Forecast α) (h : forecast v scale budget tolD tolB alts = .ok f) :
+    f.chosen = (identifyChosen v scale budget alts).chosen.map (·.label) ∧
+    f.x = alts.map fun a => (a.label,
+      if isChosenIn (identifyChosen v scale budget alts).chosen a then inv v scale a f.lam else 0) := by
+  unfold forecast at h
+  simp only at h
+  split at h
+  · cases h
+  · exact finish_ok_shape v scale alts _ _ f h
 
 end Mdcev
